@@ -312,6 +312,14 @@ func (c *Ctx) write(r record) {
 	c.out.Write(append(b, '\n'))
 }
 
+// Abort ends the child after a violation that leaves the code under test deadlocked:
+// nothing that waits for it could complete, so the summary is written and the process
+// exits instead of running into the batch watchdog.
+func (c *Ctx) Abort() {
+	c.Finish()
+	os.Exit(0)
+}
+
 // Finish writes the summary record.
 func (c *Ctx) Finish() {
 	c.mu.Lock()
